@@ -30,6 +30,7 @@ META = {
         "C01.P2 boolean/binary: one byte per element, non-zero decodes to True, cursor advances by the length",
         "C01.P3 array/list: header carries the element count, elements are encoded in order, decode threads the cursor through the children",
         "C01.P4 every normal path of every decode stores the decoded value",
+        "C01.P5 every constructor hands every value other than None to set()",
         "C01.T3 format codes pairwise distinct and equal to E5",
         "C01.T4 a Dynamic decodes every concrete item class it can hold (format-code table complete, decoding restarts at the item start)",
     ],
@@ -240,6 +241,41 @@ def check_decode_stores(ctx):
     ctx.floor("decode implementations", n, 7)
 
 
+def check_constructors(ctx):
+    """C01.P5: a value given to the constructor of a variable type is stored: every normal path of __init__ on which the
+    value parameter is not None hands exactly that parameter to set() (or stores it).  `Boolean(False)`, `U1(0)`,
+    `String("")` are values the type accepts, so a truthiness guard loses them."""
+    from .. import normal, summary
+
+    repo = ctx.repo
+    n = 0
+    for cname in ("BaseNumber", "BaseText", "Binary", "Boolean", "Array", "List", "Dynamic"):
+        f = repo.method(cname, "__init__", inherited=False)
+        ctx.touch(f)
+        names = [a.arg for a in f.node.args.args]
+        ctx.require("value" in names, f"{f.qualname}: no `value` parameter")
+        fn, _ = normal.normalise(repo, f, comps=False, ifexp=False)
+        bad = None
+        for path in summary.summarise(fn):
+            if path.kind == "raise":
+                continue
+            flat = [e for e, _ in summary.flat_effects(path.effects)]
+            stored = any(e[0] == "call" and e[1].replace(" ", "") in ("self.set(value)", "self.set(value=value)") for e in flat) or any(
+                e[0] == "store" and e[1] in ("self.value", "self.data") and e[2] == "value" for e in flat)
+            inside = any(e[0] == "call" and e[1].replace(" ", "").startswith("self.set(value") and ctxs for e, ctxs in summary.flat_effects(path.effects))
+            if stored and not inside:
+                continue
+            if ("value is None", True) in path.conds:
+                continue
+            bad = "under " + (" and ".join(("" if pol else "not ") + a for a, pol in path.conds) or "no condition")
+            break
+        n += 1
+        ctx.ob("C01.P5", f.qualname, bad is None, "the constructor hands every value other than None to set()" if bad is None else
+               f"the constructor leaves without storing its value parameter {bad}: a value the type accepts (False, 0, an empty text) is lost and the item encodes as empty",
+               key="init-stores", where=f.where)
+    ctx.floor("constructors of variable types", n, 7)
+
+
 def check_text(ctx):
     repo = ctx.repo
     for cname, coding in (("String", "latin-1"), ("JIS8", "jis_8")):
@@ -345,6 +381,7 @@ def run(ctx):
     check_codecs(ctx)
     check_text(ctx)
     check_decode_stores(ctx)
+    check_constructors(ctx)
     check_codes(ctx)
     from .c02 import check_dynamic, check_start_defaults
 
